@@ -46,9 +46,12 @@ import (
 const (
 	ChainID   = "verif-1"
 	StakeDen  = "stake"
-	T0Unix    = int64(1700000000) // model time 0
 	VotingSec = 2                 // gov voting period in seconds
 )
+
+// T0Unix is model time 0 (unix seconds). A genesis may move it (GenSpec.T0): the wall-clock scenarios of C01 place the
+// chain's deadlines a few seconds after the real clock.
+var T0Unix = int64(1700000000)
 
 // Denoms is the list of denominations the projection reports.
 var Denoms = []string{"nund", "other"}
@@ -68,6 +71,10 @@ type GenSpec struct {
 	Wrk     RegGen                      `json:"wrk"`
 	Bcn     RegGen                      `json:"bcn"`
 	Str     StrGen                      `json:"str"`
+	// T0: model time 0 as unix seconds (default 1700000000); WaitUntil: replica C does not start this behaviour before
+	// that wall-clock second (C01: replicas on both sides of a stored deadline)
+	T0        int64 `json:"t0unix,omitempty"`
+	WaitUntil int64 `json:"waitUntil,omitempty"`
 	// BigBal: additional balances given as decimal strings (amounts beyond int64; harness `arith`)
 	BigBal map[string]map[string]string `json:"bigbal,omitempty"`
 	// DB backend for this replica ("mem" default, "goleveldb")
@@ -196,6 +203,10 @@ func coinsOf(m map[string]int64) sdk.Coins {
 // (until a first block exists the SDK signature check forces account number 0).
 func NewWorld(g GenSpec) (*World, error) {
 	setConfigOnce()
+	T0Unix = 1700000000
+	if g.T0 != 0 {
+		T0Unix = g.T0
+	}
 	w := &World{Gen: g, Accts: map[string]*Acct{}, ByAddr: map[string]string{}}
 	w.opts = simtestutil.AppOptionsMap{}
 	w.opts[flags.FlagHome] = app.DefaultNodeHome
